@@ -225,6 +225,15 @@ pub fn run(tier: &str, seed: u64) -> i32 {
                 let case = Case::new(RegSrc::Prog(prog.clone()), spec.clone(), format!("D-arms {pos} settings {sname}"));
                 check_case(&case, ctx, None);
             }
+            // one name per shortcut visible in the code: user types that are called like prelude types
+            if s.depth <= 1 {
+                for (which, name) in [(D_N, "Cow"), (D_G, "Cow"), (D_N, "Option"), (D_G, "Option"), (D_G, "Vec"), (D_N, "N1")] {
+                    let mut p = prog.clone();
+                    p.defs[which].name = name.to_string();
+                    let case = Case::new(RegSrc::Prog(p), settings[0].1.clone(), format!("D-arms {pos}, helper type named {name}"));
+                    check_case(&case, ctx, None);
+                }
+            }
         }
     });
     report.add(st);
